@@ -387,7 +387,7 @@ Definition s_reject : bytes := [114;101;106;101;99;116].
 Definition s_newerr : bytes := [110;101;119;101;114;114].
 Definition s_panic_new : bytes := [112;97;110;105;99;45;110;101;119].
 
-Definition run_case_C10 (c : case) : bytes :=
+Definition run_case_serializer (c : case) : bytes :=
   let zs := c_zargs c in
   let ss := c_sargs c in
   if (length zs <? 9)%nat then s_badcase else
